@@ -165,9 +165,13 @@ package vgirpc
 //@   at call enforceResponseBudgets setflag budgetOK result == nil
 //@   pathvar budgetErr error
 //@   at call enforceResponseBudgets setflag budgetErr result
-//@   at call enforceResponseBudgets assert [caps] arg1 == measured && arg2 == externalBytesWritten && arg3 == h.maxResponseBytes && arg4 == h.maxExternalizedResponseBytes
-//@   at call (*HttpServer).writeArrow after enforceResponseBudgets assert [within] budgetOK && arg2 == 200 && len(arg3) == measured && (h.maxResponseBytes > 0 ==> len(arg3) <= h.maxResponseBytes)
-//@   at call (*HttpServer).writeUnaryCapError#1 assert [preflight] h.maxExternalizedResponseBytes > 0 && predicted > h.maxExternalizedResponseBytes && arg5 != nil && typeof(arg5) == *externalCapError
+//@   at call enforceResponseBudgets#2 assert [caps] arg1 == measured && arg2 == externalBytesWritten && arg3 == h.maxResponseBytes && arg4 == h.maxExternalizedResponseBytes
+//@   at call enforceResponseBudgets#1 assert [voidcaps] arg1 == measured && arg2 == 0 && arg3 == h.maxResponseBytes && arg4 == h.maxExternalizedResponseBytes
+//@   # every body that goes out with status 200 — the void response (which still carries the
+//@   # handler's logs; repaired defect: it used to skip the check) as much as the valued one —
+//@   # was measured and passed the check
+//@   at call (*HttpServer).writeArrow assert [within] arg2 == 200 ==> budgetOK && len(arg3) == measured && (h.maxResponseBytes > 0 ==> len(arg3) <= h.maxResponseBytes)
+//@   at call (*HttpServer).writeUnaryCapError#2 assert [preflight] h.maxExternalizedResponseBytes > 0 && predicted > h.maxExternalizedResponseBytes && arg5 != nil && typeof(arg5) == *externalCapError
 //@   at call newExternalCapError assert [preflightargs] arg1 == predicted && arg2 == h.maxExternalizedResponseBytes
 //@   at call (*HttpServer).writeUnaryCapError after enforceResponseBudgets assert [replaced] !budgetOK && arg5 == budgetErr && arg5 != nil
 //
